@@ -5,7 +5,7 @@
 From Coq Require Import List ZArith NArith Bool Arith Lia.
 From GoProbe.Base Require Import CorrLib.
 From GoProbe.C04 Require Import Model.
-From GoProbe.C30 Require Import C04P1 C04P2 C04P3 C04P4 C04P5.
+From GoProbe.C30 Require Import C04P1 C04P2 C04P3 C04P4 C04P5 C04PC.
 Import ListNotations.
 
 Definition sufx (l : list writeout) : option totals := match l with [] => None | _ => Some (tots_of l) end.
@@ -14,6 +14,7 @@ Definition daylist (a : adb) (k : dkey) : list writeout := match lookup k a with
 Definition GoodD (d : dayfs) (obl : option (list writeout)) (n : nat) : Prop :=
   match obl with
   | Some bl => bl <> [] /\ d_meta d = Some (Some (meta_of bl)) /\ n <= length bl /\ d_suf d = sufx (firstn n bl)
+               /\ cols_ok d bl /\ Forall wf_w bl
   | None => d_meta d = None /\ d_suf d = None
   end.
 Definition GoodS (s : fs) (a : adb) (nf : dkey -> nat) : Prop :=
@@ -34,16 +35,34 @@ Proof.
 Qed.
 
 Lemma good_frame s a nf p f : GoodS s a nf ->
-  (forall d, d_suf (f d) = d_suf d /\ d_meta (f d) = d_meta d) -> GoodS (upd_day s p f) a nf.
+  (forall d, d_suf (f d) = d_suf d /\ d_meta (f d) = d_meta d /\ forall c, d_cols (f d) c = d_cols d c) ->
+  GoodS (upd_day s p f) a nf.
 Proof.
-  intros G Hf. apply good_upd; auto. intros d _ GD. destruct (Hf d) as [E1 E2].
+  intros G Hf. apply good_upd; auto. intros d _ GD. destruct (Hf d) as (E1 & E2 & E3).
   unfold GoodD in *. destruct (lookup (dp_key p) a); rewrite E1, E2; auto.
+  destruct GD as (A1 & A2 & A3 & A4 & A5 & A6). repeat split; auto. eapply cols_ok_ext; eauto.
 Qed.
 
-Ltac frame G := apply good_frame; [exact G | intros; split; reflexivity].
+Ltac frame G := apply good_frame; [exact G | intros; repeat split; intros; reflexivity].
 
-(* every operation that is not one of the two renames preserves the invariant *)
-Lemma step_good a nf s o : not_rename o -> GoodS s a nf -> GoodS (fst (apply s o)) a nf.
+(* the operations of a write-out before its commit: no rename, column data written at the committed end *)
+Definition op_ok (a : adb) (o : fsop) : Prop :=
+  match o with
+  | ORename _ _ | ORenameDir _ _ => False
+  | OWrite (RCol p c) off (WBytes _) => off = clen c (daylist a (dp_key p))
+  | _ => True
+  end.
+Lemma op_ok_not_rename a o : op_ok a o -> not_rename o.
+Proof. destruct o; cbn; auto. Qed.
+
+Lemma cols_ok_other d bl c x : ~ c < ncols -> cols_ok d bl -> cols_ok (set_col d c x) bl.
+Proof.
+  intros N H pre w post E c' Hc. rewrite <- (H pre w post E c' Hc). apply read_col_ext. cbn.
+  destruct (Nat.eqb c' c) eqn:EE; auto. apply Nat.eqb_eq in EE. subst. contradiction.
+Qed.
+
+(* every such operation preserves the invariant *)
+Lemma step_good a nf s o : op_ok a o -> GoodS s a nf -> GoodS (fst (apply s o)) a nf.
 Proof.
   intros NR G. destruct o as [dr|f|f|f|f off|f off dat|f|f|f g|p q|f|f]; try contradiction; cbn [apply].
   - destruct dr as [u|p].
@@ -59,14 +78,21 @@ Proof.
   - destruct f; cbn [fst]; auto.
   - destruct f as [| |p c|]; cbn [fst]; auto.
     destruct (day_at s p) as [d|] eqn:D; cbn [fst]; auto.
-    destruct (d_cols d c); auto. frame G.
+    destruct (d_cols d c) eqn:DC; auto.
+    apply good_upd; auto. intros d0 L0 GD. apply day_at_some in D as [L _]. rewrite L in L0. injection L0 as <-.
+    unfold GoodD in *. destruct (lookup (dp_key p) a); auto.
+    destruct GD as (A1 & A2 & A3 & A4 & A5 & A6). repeat split; auto. now apply cols_ok_create.
   - destruct f as [| | |p n]; cbn [fst]; auto.
     destruct (day_at s p) as [d|] eqn:D; cbn [fst]; auto. frame G.
   - cbn [fst]; auto.
   - destruct f as [| |p c|p n]; cbn [fst]; auto.
     + destruct dat; cbn [fst]; auto.
       destruct (day_at s p) as [d|] eqn:D; cbn [fst]; auto.
-      destruct (d_cols d c); cbn [fst]; auto. frame G.
+      destruct (d_cols d c) eqn:DC; cbn [fst]; auto.
+      apply good_upd; auto. intros d0 L0 GD. apply day_at_some in D as [L _]. rewrite L in L0. injection L0 as <-.
+      cbn in NR. unfold daylist in NR. unfold GoodD in *. destruct (lookup (dp_key p) a) as [bl|]; auto.
+      destruct GD as (A1 & A2 & A3 & A4 & A5 & A6). repeat split; auto.
+      destruct (lt_dec c ncols) as [LT|GE]; [subst off; now apply cols_ok_write | now apply cols_ok_other].
     + destruct (day_at s p) as [d|] eqn:D; cbn [fst]; auto. frame G.
   - cbn [fst]; auto.
   - destruct f; cbn [fst]; auto.
@@ -76,9 +102,9 @@ Proof.
   - cbn [fst]; auto.
 Qed.
 
-Lemma run_good a nf l : Forall not_rename l -> forall s, GoodS s a nf -> GoodS (apply_all s l) a nf.
+Lemma run_good a nf l : Forall (op_ok a) l -> forall s, GoodS s a nf -> GoodS (apply_all s l) a nf.
 Proof. induction 1 as [|o l NR F IH]; intros s G; cbn; auto. apply IH. now apply step_good. Qed.
-Lemma prefix_good a nf l k s : Forall not_rename l -> GoodS s a nf -> GoodS (apply_all s (firstn k l)) a nf.
+Lemma prefix_good a nf l k s : Forall (op_ok a) l -> GoodS s a nf -> GoodS (apply_all s (firstn k l)) a nf.
 Proof. intros F G. apply run_good; auto. now apply Forall_firstn. Qed.
 
 (* day directories are never removed *)
